@@ -273,3 +273,16 @@ func TraceArg[T any](i, k int) T {
 	v, _ := Trace[i].Args[k].(T)
 	return v
 }
+
+// OffsetIn tells where sub starts inside the backing array of whole (0 = at whole[0]); -1 when sub does not point
+// into it. Decoders return sub-slices of the packet body: this recovers their position.
+func OffsetIn(sub, whole []byte) int {
+	if cap(sub) == 0 || cap(whole) == 0 {
+		return -1
+	}
+	ps, pw := uintptr(unsafe.Pointer(unsafe.SliceData(sub))), uintptr(unsafe.Pointer(unsafe.SliceData(whole)))
+	if ps < pw || ps > pw+uintptr(cap(whole)) {
+		return -1
+	}
+	return int(ps - pw)
+}
